@@ -15,7 +15,7 @@ RULE_DOC = {
     'R4': 'uN::from_{le,be}_bytes([..]) -> uN_from_{le,be}([..]); X[a..b].try_into().unwrap() -> arrN(&X, a) (prelude helpers with arithmetic decode contracts)',
     'R5': '`P op= E;` -> `P = P op (E);` for + - * (identical semantics on primitive numerics)',
     'R6': 'debug_assert!/assert!/assert_eq!/assert_ne! -> assert(..) proof obligations; panic!/unreachable!/unimplemented! -> vpanic() which requires false (messages dropped)',
-    'R7': 'iterator sugar: `for (i, x) in V.iter().enumerate()`, `for x in V.iter()`, `for x in V` -> index loop with `let x = &V[i];`',
+    'R7': 'iterator sugar: `for (i, x) in V.iter().enumerate()`, `for x in V.iter()`, `for x in V` -> index loop with `let x = &V[i];`; a trailing `.skip(K)`, `.take(K)`, `.skip(K).take(N)` or `.rev()` on those headers changes the index range accordingly (so that an edit adding one is judged by the loop invariants)',
     'R8': 'pub(crate)/pub(super) -> pub; non-Verus attributes (#[inline], #[allow], #[cfg_attr], serde derives) and doc comments stripped',
     'R9': 'outline: body of loop k of f becomes its own fn (the enclosing iteration is dropped)',
     'R10': 'closure lift: `let NAME = move |typed params| { BODY };` -> fn NAME(typed params) { BODY } (closure captures nothing)',
@@ -201,6 +201,37 @@ def r7_iter(text):
             text = text[:mt.start()] + 'for %s in 0..%s.len() { let %s = &%s[%s];' % (i, v, x, v, i) + text[mt.end():]
             hits += 1
             continue
+        # the same two forms with a trailing `.skip(K)`, `.take(K)`, `.skip(K).take(N)` or `.rev()` (an edit may add
+        # one to a loop header): the index range changes accordingly, so the loop's invariants judge the edit
+        mt = re.search(r'\bfor\s+(?:\(\s*(\w+)\s*,\s*(\w+)\s*\)|(\w+))\s+in\s+([\w\.]+)\.iter\(\)(\.enumerate\(\))?((?:\.(?:skip|take)\(\s*[\w\.]+\s*\)|\.rev\(\)){1,2})\s*\{', m)
+        if mt and ((mt.group(1) is not None) == (mt.group(5) is not None)):
+            v = mt.group(4)
+            ad = re.findall(r'\.(skip|take|rev)\(\s*([\w\.]*)\s*\)', text[mt.start(6):mt.end(6)])
+            shape = [a for a, _ in ad]
+            ln = '%s.len()' % v
+            clamp = lambda e: '(if (%s) as usize <= %s { (%s) as usize } else { %s })' % (e, ln, e, ln)
+            lo, hi, rev = '0', ln, False
+            ok = True
+            if shape == ['skip']:
+                lo = clamp(ad[0][1])
+            elif shape == ['take']:
+                hi = clamp(ad[0][1])
+            elif shape == ['skip', 'take']:
+                lo = clamp(ad[0][1])
+                hi = '(if (%s) as usize <= %s - %s { %s + (%s) as usize } else { %s })' % (ad[1][1], ln, lo, lo, ad[1][1], ln)
+            elif shape == ['rev']:
+                rev = True
+            else:
+                ok = False
+            if ok:
+                if mt.group(1) is not None:
+                    i, x = mt.group(1), mt.group(2)
+                else:
+                    i, x = fresh(), mt.group(3)
+                elem = '&%s[%s]' % (v, i) if not rev else '&%s[%s - 1 - %s]' % (v, ln, i)
+                text = text[:mt.start()] + 'for %s in %s..%s { let %s = %s;' % (i, lo, hi, x, elem) + text[mt.end():]
+                hits += 1
+                continue
         mt = re.search(r'\bfor\s+(\w+)\s+in\s+([\w\.]+)\.iter\(\)\s*\{', m)
         if mt:
             x, v = mt.group(1), mt.group(2)
